@@ -465,7 +465,7 @@ func c11Scn(cs c11Case, bound int) *Scn {
 func init() {
 	harness.Register(&harness.Check{
 		Property: "C11", Level: "fault_enumeration", NeedsConc: true, QuickS: 200, ThoroughS: 1500,
-		Rule:   "all fault histories of length <=3 (quick) / <=4 (thorough) over the 12-symbol alphabet {refuse, stalled connect, FIN / RST / Cease at remote-view states 0 (connected), 1 (OPEN exchanged), 2 (Established), inbound session then FIN} x (idle-hold, connect-retry) in {(5,5),(1,3),(10,2)} x {active, passive} x both timer semantics, each followed by a well-behaved remote and run in virtual time on the real FSM; dial attempts are observed through WithDialerControl; plus all schedules within the delay bound (1 quick / 2 thorough) for the histories of length <=2; all cases non-trivial and distinct",
+		Rule:   "all fault histories of length <=3 (quick) / <=4 (thorough) over the 12-symbol alphabet {refuse, stalled connect, FIN / RST / Cease at remote-view states 0 (connected), 1 (OPEN exchanged), 2 (Established), inbound session then FIN} x (idle-hold, connect-retry) in {(5,5),(1,3),(10,2)} x {active, passive} x both timer semantics, each followed by a well-behaved remote and run in virtual time on the real FSM; dial attempts are observed through WithDialerControl; plus all schedules within the delay bound (1 quick / 2 thorough) for the histories of length <=2; faults also at the accept instant and in the middle of the OPEN (RST/FIN after 9 octets); a run that never lets virtual time advance is a livelock verdict; all cases non-trivial and distinct",
 		Assume: []string{"virtual clock; zero-time computation (A4)", "default schedule for the history enumeration"},
 		Run:    c11Check,
 		Replay: func(c *harness.Ctx, raw json.RawMessage) {
